@@ -129,6 +129,14 @@ def run(ctx):
     ctx.cov["pool_sequences"] = len(pool)
     ctx.cov["exhaustive"] = "all sequences of <= %d statements from the 12-statement pool (harness/internal/execgen Pool)" % (3 if ctx.tier == "thorough" else 2)
     seqs += pool
+    if ctx.replay:
+        # re-run exactly the sequence of a recorded violation (same seed => same statements), print impl / model verdicts
+        rp = json.load(open(ctx.replay))
+        want = (rp.get("violation") or {}).get("case", {}).get("seq")
+        seqs = [q for q in seqs if q["id"] == want]
+        for q in seqs:
+            for st in q["stmts"]:
+                print("REPLAY impl: %-7s %s" % (st["obs"]["class"], st["text"]))
     cases = steps_of(seqs)
     classes = collections.Counter()
     for c in cases:
@@ -137,8 +145,12 @@ def run(ctx):
         if o["class"] in ("panic", "hang"):
             ctx.violation({"kind": "statement-" + o["class"], "case": slim(c)})
     bad = model_mismatches(ctx, "cases_c04", cases)
+    if ctx.replay:
+        for i, c in enumerate(cases):
+            print("REPLAY step %d: model %s the implementation (outcome class + every graph listing)" % (i, "DIFFERS from" if i in bad else "agrees with"))
+    by_id = {q["id"]: q for q in seqs}
     for i in bad[:5]:
-        ctx.violation({"kind": "executor-model-vs-real-engine", "case": slim(cases[i]),
+        ctx.violation({"kind": "executor-model-vs-real-engine", "case": failing_input(cases[i], by_id),
                        "explain": "outcome class or the listing of some graph after the statement differs from "
                                   "exec (Coq, vm_compute) run on the observed previous store, modulo renaming of new blank nodes"})
     nx, badx = rows_crosscheck(cases)
@@ -162,7 +174,7 @@ def run(ctx):
                                         and any(len(cl["pairs"]) > 1 for cl in c["stmt"]["tmpl"]) and (c["stmt"].get("q") or {}).get("rows"))
     with_rows = sum(1 for c in cases if c["stmt"]["kind"] == "construct" and (c["stmt"].get("q") or {}).get("rows"))
     ctx.cov["constructs_with_rows"] = with_rows
-    if ctx.cov["reified_constructs"] < 3 or with_rows < 20:
+    if not ctx.replay and (ctx.cov["reified_constructs"] < 3 or with_rows < 20):
         ctx.broken("generator degenerate: %d successful reifying constructs, %d constructs with solution rows"
                    % (ctx.cov["reified_constructs"], with_rows))
     nerr = sum(v for k, v in classes.items() if not k.endswith("/ok"))
@@ -170,8 +182,88 @@ def run(ctx):
         ctx.notes.append("generator produced %d/%d non-ok statements" % (nerr, len(cases)))
 
 
+def _node_text(n):
+    return "/_<blank#%d>" % n["b"] if n.get("b") is not None else "%s<%s>" % (n.get("t", ""), n.get("i", ""))
+
+
+def _pred_text(p):
+    return '"%s"@[%s]' % (p["id"], "" if p.get("a") is None else "%dns" % p["a"])
+
+
+def _triple_text(t):
+    o = t["o"]
+    ot = _node_text(o["n"]) if o.get("n") is not None else _pred_text(o["p"]) if o.get("p") is not None else o["l"]
+    return "%s %s %s" % (_node_text(t["s"]), _pred_text(t["p"]), ot)
+
+
+def _listing_text(l):
+    return {g: sorted(_triple_text(t) for t in ts) for g, ts in l.items()}
+
+
+def failing_input(c, seqs_by_id):
+    """the concrete failing input: the statements executed so far, the store before, the statement, the rows the
+    engine's own SELECT gave, and the observed store after"""
+    st = c["stmt"]
+    d = slim(c)
+    q = seqs_by_id.get(c["seq"])
+    if q is not None:
+        d["statements_before"] = [x["text"] for x in q["stmts"][:c["idx"]]]
+    d["store_before"] = _listing_text(c["prev"])
+    d["store_after_observed"] = _listing_text(st["obs"]["after"])
+    d["solution_rows"] = (st.get("q") or {}).get("rows")
+    return d
+
+
 def slim(c):
     st = c["stmt"]
     return {"seq": c["seq"], "idx": c["idx"], "bulk": c["bulk"], "text": st["text"], "class": st["obs"]["class"],
             "err": st["obs"].get("err", "")[:200], "rows": len((st.get("q") or {}).get("rows") or []),
             "prev": {g: len(v) for g, v in c["prev"].items()}, "after": {g: len(v) for g, v in st["obs"]["after"].items()}}
+
+
+def oracle_violation(c):
+    """SPEC vs implementation without Coq (used when the Coq side is broken): frame condition for every statement,
+    exact set semantics for INSERT / DELETE / CREATE / DROP, no effect for rejected statements"""
+    st, o = c["stmt"], c["stmt"]["obs"]
+    prev, after = c["prev"], o["after"]
+    key = lambda t: json.dumps(t, sort_keys=True)
+    sets = lambda l: {g: {key(t) for t in ts} for g, ts in l.items()}
+    P, A = sets(prev), sets(after)
+    kind = st["kind"]
+    targets = st.get("gs") or st.get("outs") or []
+    if kind in ("select", "show", "bad") or o["class"] == "reject":
+        return None if P == A else "store changed by a statement that must not write"
+    for g in set(P) | set(A):
+        if g not in targets and P.get(g) != A.get(g):
+            return "graph %s is not a target but changed" % g
+    if kind in ("insert", "delete"):
+        ts = {key(t) for t in st["ts"]}
+        for g in targets:
+            if g in P:
+                want = P[g] | ts if kind == "insert" else P[g] - ts
+                if A.get(g) != want:
+                    return "graph %s is not old %s listed triples" % (g, "+" if kind == "insert" else "-")
+    if kind == "create":
+        for g in targets:
+            if g not in P and A.get(g) != set():
+                return "created graph %s missing or not empty" % g
+    if kind == "drop":
+        for g in targets:
+            if g in A:
+                return "dropped graph %s still there" % g
+    return None
+
+
+def search(ctx, broken):
+    """failing-input search when an obligation or the build breaks: SPEC (python oracle) against the implementation"""
+    try:
+        seqs = hexec(["-seed", str(ctx.seed), "-n", "300"]) + hexec(["-mode", "pool", "-len", "2"])
+    except Exception:
+        return None
+    for c in steps_of(seqs):
+        why = oracle_violation(c)
+        if why:
+            d = failing_input(c, {q["id"]: q for q in seqs})
+            d["why"] = why
+            return d
+    return None
